@@ -29,6 +29,11 @@ def slice_def(u, name, tier):
         calls = [u.call("export_all", t, "default") for t in ["Al1", "Al<Leaf>", "AlphaBeta", "Beta", "alpha2"]]
         f0, f = exportlib.free_alphabet(calls)
         return dict(calls=calls, follow0=f0, follow=f, maxlen=3 if q else 5, init="empty", strict=True, confl="C05")
+    if name == "imports":             # C05: overlapping and disjoint import sets, several names from one other shared file
+        tys = ["AlA", "AlB", "AlC", "Al1", "Alpha"] + ([] if q else ["AlphaBeta", "Al<Leaf>"])
+        calls = [u.call("export", t, "default") for t in tys] + [u.call("export_all", t, "default") for t in ["AlA", "AlB", "AlC"]]
+        f0, f = exportlib.free_alphabet(calls)
+        return dict(calls=calls, follow0=f0, follow=f, maxlen=3 if q else 4, init="empty", strict=True, confl="C05")
     if name == "nasty":               # declarations whose text stresses the textual merge
         calls = [u.call("export", t, "default") for t in ["Alpha", "Gamma", "Delta", "Zeta", "Eta", "AlphaBeta", "Beta"]]
         f0, f = exportlib.free_alphabet(calls)
@@ -60,9 +65,45 @@ def slice_def(u, name, tier):
                 calls.append(u.call(e, t, "default"))
         f0, f = exportlib.free_alphabet(calls)
         return dict(calls=calls, follow0=f0, follow=f, maxlen=2 if q else 3, init="stale", strict=True, confl="C06")
+    if name == "prev":                # C06: the directory a previous process left behind
+        return prev_slice(u, tier)
     if name == "faults":              # C17: one obstacle before one call, removed, call retried
         return fault_slice(u, tier)
     raise ToolError("unknown slice " + name)
+
+
+def prev_slice(u, tier):
+    """histories  <one or two calls>  restart  <one or two calls>: the second process finds what the first one wrote
+    (a shared file holding some of its types, files of types it will not export, ..)"""
+    q = tier == "quick"
+    c = lambda e, t: u.call(e, t, "default")
+    p1 = [c("export", "Alpha"), c("export", "Al1"), c("export_all", "AlphaBeta"), c("export_all", "Root"), c("export", "Beta")]
+    p2 = [c("export", "Alpha"), c("export", "Al1"), c("export", "Al2"), c("export_all", "AlphaBeta"), c("export", "Beta"), c("export_all", "Root")]
+    if not q:
+        p1 += [c("export_all", "Pair"), c("export", "Gamma")]
+        p2 += [c("export", "alpha2"), c("export_all", "Pair"), c("export", "Gamma"), c("export_all", "Wrap<Alpha>")]
+    calls, follow = [], []
+    def add(cs_):
+        idx = []
+        for x in cs_:
+            calls.append(dict(x)); follow.append(None); idx.append(len(calls))
+        return idx
+    a1, a2 = add(p1), add(p1)
+    calls.append(u.restart_step()); follow.append(None); r = len(calls)
+    b1, b2 = add(p2), add(p2)
+    b3 = add(p2) if not q else []
+    for i in a1:
+        follow[i - 1] = a2 + [r]
+    for i in a2:
+        follow[i - 1] = [r]
+    follow[r - 1] = b1
+    for i in b1:
+        follow[i - 1] = b2
+    for i in b2:
+        follow[i - 1] = b3
+    for i in b3:
+        follow[i - 1] = []
+    return dict(calls=calls, follow0=a1 + [r], follow=follow, maxlen=6, init="empty", strict=True, confl="C06", sha_of_done_only=True)
 
 
 def fault_slice(u, tier):
@@ -208,8 +249,16 @@ def run_slice(name, tier, stats):
                     mb = mbad[tuple(c["hist"][:k])]
                     break
             key = sd["init"] + "|" + json.dumps(sorted(("/".join("".join(x) for x in d_["path"]), d_["ident"]) for d_ in o["done"]))
+            final = ob["steps"][-1]["tree"]
+            if sd.get("sha_of_done_only"):
+                # what an earlier process left behind stays: compare the files the exported types live in
+                root = "/".join(u.model_root) + "/"
+                donep = {"/".join("".join(x) for x in d_["path"]) for d_ in o["done"]}
+                final_cmp = {p_: b_ for p_, b_ in final.items() if root + p_ in donep}
+            else:
+                final_cmp = final
             results.append({"hid": c["hid"], "slice": name, "steps": c["steps"], "bad": o["bad"], "pred_equal": o["pred_equal"],
-                            "model_bad": mb, "key": key, "sha": exportlib.tree_sha(ob["steps"][-1]["tree"]),
+                            "model_bad": mb, "key": key, "sha": exportlib.tree_sha(final_cmp),
                             "rets": [s["ret"] for s in ob["steps"]], "pred_rets": c["pred_rets"],
                             "final_tree": ob["steps"][-1]["tree"], "blobs": None})
         # ADJUDICATE (pass 2): confluence over histories without other failures
